@@ -334,3 +334,29 @@ def fold(R, P, modname, rule_ids, new_rule, floor):
                 k = "%s:%s" % (r["rule"], r["key"].split("|", 1)[1])
                 (R.ok if r["ok"] else R.fail)(new_rule, k, r["loc"], r["detail"])
     R.floor(new_rule, n, floor, "obligations folded from %s %s" % (modname.upper(), sorted(rule_ids)))
+
+
+SYNC_TY = "consensus::synchronizer::Synchronizer"
+
+
+def sync_fns(prog, env):
+    """Locate by behaviour, not by name: (parent lookup, ancestor pair) functions of the consensus Synchronizer.
+    parent lookup = the method that reads the store under `block.parent()`; ancestor pair = the method that calls the
+    parent lookup and returns a pair of blocks."""
+    parent = anc = None
+    for f in prog.methods_of(SYNC_TY):
+        if f.derived:
+            continue
+        ctx = env.ctx(f)
+        for n in f.nodes():
+            if n["k"] == "mcall" and "store::Store::read" in callee_paths(n) and n["args"] and ".parent()" in ctx.term(n["args"][0]):
+                parent = f
+    if parent is not None:
+        for f in prog.methods_of(SYNC_TY):
+            if f is parent or f.derived:
+                continue
+            calls = [n for n in f.nodes() if n["k"] in ("mcall", "call") and parent.path in callee_paths(n)]
+            tups = [n for n in f.nodes() if n["k"] == "tup" and len(n["es"]) == 2 and "messages::Block" in (n.get("ty") or "")]
+            if len(calls) >= 2 and tups:
+                anc = f
+    return parent, anc
